@@ -69,12 +69,31 @@ fn single_history(rep: &mut Report, rng: &mut Rng, idx: u64) {
         std::fs::write(&path, &pre).unwrap();
     }
     let (enc, nl, enc_name) = pick_encoder(rng);
-    let desc = json!({"append_mode": append_mode, "pre_existing_bytes": pre.len(), "encoder": enc_name});
-    let app = match FileAppender::builder().encoder(enc).append(append_mode).build(&path) {
-        Ok(a) => a,
-        Err(e) => {
-            rep.violation("C04:build-failed", json!({"case": desc, "error": e.to_string()}));
-            return;
+    // a quarter of the histories build the appender through the config-file machinery (kind: file);
+    // an omitted `append` key means append (documented default)
+    let via_config = !nl && rng.chance(1, 2);
+    let append_key: Option<bool> = if via_config && append_mode && rng.chance(1, 2) { None } else { Some(append_mode) };
+    let desc = json!({"append_mode": append_mode, "pre_existing_bytes": pre.len(), "encoder": enc_name,
+        "built_from_config_document": if via_config { Some(match append_key { Some(b) => format!("append: {}", b), None => "append key omitted".into() }) } else { None }});
+    let app: Box<dyn Append> = if via_config {
+        rep.count("histories_built_from_config_documents", 1);
+        let doc = format!("path: '{}'\n{}encoder: {{pattern: '{{m}}{{n}}'}}\n", path.to_str().unwrap(),
+            match append_key { Some(b) => format!("append: {}\n", b), None => String::new() });
+        let value: serde_value::Value = serde_yaml::from_str(&doc).unwrap();
+        match log4rs::config::Deserializers::default().deserialize::<dyn Append>("file", value) {
+            Ok(a) => a,
+            Err(e) => {
+                rep.violation("C04:build-failed", json!({"case": desc, "error": format!("{:#}", e)}));
+                return;
+            }
+        }
+    } else {
+        match FileAppender::builder().encoder(enc).append(append_mode).build(&path) {
+            Ok(a) => Box::new(a),
+            Err(e) => {
+                rep.violation("C04:build-failed", json!({"case": desc, "error": e.to_string()}));
+                return;
+            }
         }
     };
     let after_open = std::fs::read(&path).unwrap_or_default();
@@ -94,7 +113,7 @@ fn single_history(rep: &mut Report, rng: &mut Rng, idx: u64) {
         // a 70 KiB record only now and then
         let len = if len == 70_000 && !rng.chance(1, 4) { 1008 } else { len };
         sizes.push(len);
-        let a = append_frame(&app, wid, seq, len, nl);
+        let a = append_frame(&*app, wid, seq, len, nl);
         if let Some(p) = take_panic() {
             rep.violation("C04:panic:append", json!({"case": desc, "panic": p}));
             return;
